@@ -94,4 +94,32 @@ theorem identical_after_resolution_refuted_prefix :
   revert this
   decide +kernel
 
+/-! ## still open: a relative `project_directory` that is not an existing directory
+
+`relworkingdir = loader.Dir(r.ProjectDirectory)`: `localResourceLoader.Dir` is written for files ("the resource's parent
+folder") and answers the directory itself only when it exists; otherwise the *parent*.  The included model's paths are
+then resolved against the parent of the declared project directory, while `.env` and nested includes use the declared
+one.  Replayed from `corpus/C06/missing-project_directory.json`
+(finding `missing-project_directory:differs:services.*.build.context`). -/
+
+/-- `/root/compose.yaml` includes `sub/inc.yaml` with `project_directory: nodir` (no such directory): paths are
+resolved against `/root`, the project directory is `/root/nodir` -/
+theorem anchor_is_projDir_refuted :
+    ∃ pl, plan W "/root" "/root" ["/root/compose.yaml"] { path := ["sub/inc.yaml"], projectDirectory := "nodir" } = .ok pl ∧
+      pl.relwd = "." ∧ pl.projDir = "/root/nodir" ∧ join "/root" pl.relwd = "/root" ∧
+      join "/root" pl.relwd ≠ clean pl.projDir ∧ isAbs pl.relwd = false :=
+  ⟨⟨".", "/root/nodir", ["/root/sub/inc.yaml"]⟩, by decide +kernel⟩
+
+/-- the full-strength anchoring statement (`include_anchor_is_projDir_partial` without `PlanDirsExist`) is false -/
+theorem include_anchor_is_projDir_full_refuted :
+    ¬ (∀ (W : World) (L : String) (chain : List String) (r : IncCfg) (pl : Plan), isAbs L = true → r.path ≠ [] →
+        plan W L L chain r = .ok pl →
+        join L pl.relwd = clean pl.projDir ∨ (isAbs pl.relwd = true ∧ pl.relwd = pl.projDir)) := by
+  intro h
+  obtain ⟨pl, hpl, _, _, _, hne, hrel⟩ := anchor_is_projDir_refuted
+  rcases h W "/root" ["/root/compose.yaml"] { path := ["sub/inc.yaml"], projectDirectory := "nodir" } pl
+      (by decide +kernel) (by decide) hpl with hj | ⟨ha, _⟩
+  · exact hne hj
+  · rw [ha] at hrel; cases hrel
+
 end CV.Include.Neg
